@@ -8,8 +8,11 @@
    table as every other connection sees it; `pending s` = the transaction's private
    view while it holds sqlite's write lock; `run cfg init ops` = the state after the
    history `ops` (create/get/select/count/read/assign/destroySelf/expire/sync/drop/cull
-   on either side, commit, commit(close), rollback, begin), for every configuration
-   cfg (cache on/off, cull settings, ConnWrapper usable or not). *)
+   on either side, syncUpdate, commit, commit(close), rollback, begin), for every configuration
+   cfg (cache on/off, cull settings, ConnWrapper usable or not, the class eager or lazyUpdate, column b
+   UNIQUE or not).  An instance of a lazyUpdate class queues its assignments (`i_pending`) until
+   syncUpdate()/sync(); `shows t i` = every cached attribute of a column with nothing queued agrees with
+   table t. *)
 From Coq Require Import List ZArith Bool.
 From Model Require Import Txn.
 From Proofs Require Import TxnSpec TxnTop.
@@ -42,7 +45,7 @@ Theorem C07_read :
       | Some v => Ret (RVal v)
       | None => if dead s sd then Raise EAssertion
                 else match tbl_lookup (view s sd) (i_id (get_inst s sd o)) with
-                     | Some r => Ret (RVal (nth c r None))
+                     | Some r => Ret (RVal (nth c (reloaded cfg (get_inst s sd o) r) None))
                      | None => Raise ENotFound
                      end
       end.
@@ -165,7 +168,7 @@ Theorem C07_obsolete_refuses :
     tobs s = true -> op_side s o = Some Txn -> o <> OBegin ->
     let s' := snd (step cfg s o) in
     tobs s' = true /\ committed s' = committed s /\ pending s' = pending s /\ log s' = [] /\
-    (needs_db s o = true -> fst (step cfg s o) = Raise EAssertion).
+    (needs_db cfg s o = true -> fst (step cfg s o) = Raise EAssertion).
 Proof. exact (@obsolete_proof). Qed.
 
 (* get: an instance (one its cache still holds -- no statement was sent, by the previous theorem) or AssertionError *)
@@ -188,9 +191,79 @@ Theorem C07_begin :
       if tobs s then (Ret RNone, with_tobs (with_log s []) false) else (Raise EAssertion, with_log s []).
 Proof. exact (@begin_proof). Qed.
 
+(* ------------------------------------------------------------------ a lazyUpdate class *)
+(* an assignment sends nothing: outcome None, no statement, tables and transaction state untouched; the instance caches and
+   queues the value, nothing else changes *)
+Theorem C07_lazy_assignment_queues :
+  forall (cfg : config) (ops : list op) (h : nat) (sd : side) (x c : nat) (v : val),
+    let s := run cfg init ops in
+    lazy cfg = true -> nth h (slots s) None = Some (sd, x) ->
+    let s' := snd (step cfg s (OSet h c v)) in
+    fst (step cfg s (OSet h c v)) = Ret RNone /\ log s' = [] /\ committed s' = committed s /\ pending s' = pending s /\
+    tobs s' = tobs s /\ slots s' = slots s /\ cn s' (other sd) = cn s (other sd) /\ cache (cn s' sd) = cache (cn s sd) /\
+    forall x', get_inst s' sd x' =
+               if Nat.eqb x' x && Nat.ltb x (length (heap (cn s sd)))
+               then i_with_pending (set_val c v (get_inst s sd x)) (set_nth c (Some v) (i_pending (get_inst s sd x)))
+               else get_inst s sd x'.
+Proof. exact (@lazy_set_proof). Qed.
+
+(* syncUpdate: with nothing queued nothing at all happens; else, when it returns, ONE statement went to the instance's own
+   connection, that connection's view is the old one with the queued values written into the row (hence, for a
+   transaction-side instance: invisible until commit, by C07_invisible_until_commit), the queue is empty and the cached
+   attributes are what they were *)
+Theorem C07_sync_update :
+  forall (cfg : config) (ops : list op) (h : nat) (sd : side) (x : nat),
+    let s := run cfg init ops in
+    let i := get_inst s sd x in
+    nth h (slots s) None = Some (sd, x) ->
+    (dirty i = false -> step cfg s (OSyncUpdate h) = (Ret RNone, with_log s [])) /\
+    (dirty i = true -> fst (step cfg s (OSyncUpdate h)) = Ret RNone ->
+     let s' := snd (step cfg s (OSyncUpdate h)) in
+     view s' sd = tbl_update_cols (i_id i) (i_pending i) (view s sd) /\ length (log s') = 1%nat /\
+     dirty (get_inst s' sd x) = false /\ i_vals (get_inst s' sd x) = i_vals i).
+Proof. exact (@sync_update_proof). Qed.
+
+(* What Transaction.commit does to a parent-side instance with queued assignments is in C07_commit_shows_exact_state_partial:
+   under commit_reaches it is expired like any other -- attributes and queue dropped (so_expire) -- and par_fresh holds
+   afterwards; the history theorem covers queued assignments and syncUpdate on the parent side (step_ok). *)
+
+(* ------------------------------------------------------------------ statements the database refuses (UNIQUE column) *)
+(* the statement itself: refused on the transaction's connection (DuplicateEntryError), it has been sent -- it is in the
+   log -- and leaves the transaction OPEN on exactly the view it had: nothing the transaction did before is lost, nothing of
+   the refused statement is written, and the write lock is held from here on *)
+Theorem C07_refused_statement :
+  forall A (q : stmt) (rf : table -> bool) (f : table -> A * table) (s : st),
+    fst (stmt_write Txn q rf f s) = Raise EDuplicate ->
+    tobs s = false /\ rf (view s Txn) = true /\
+    snd (stmt_write Txn q rf f s) = with_pending (with_log s (q :: log s)) (Some (view s Txn)).
+Proof. exact (@refused_write_proof). Qed.
+
+(* the operations: a create through the transaction, an assignment (eager class) or a syncUpdate through a transaction-side
+   instance that raise DuplicateEntryError change nothing but that: the transaction is not finished, the committed table
+   is the same, the transaction's view is the same (now held under the write lock), no instance and no cache changed *)
+Theorem C07_refused_create :
+  forall (cfg : config) (ops : list op) (via : bool) (a b : val),
+    let s := run cfg init ops in
+    fst (step cfg s (OCreate Txn via a b)) = Raise EDuplicate ->
+    let s' := snd (step cfg s (OCreate Txn via a b)) in
+    tobs s' = false /\ committed s' = committed s /\ pending s' = Some (view s Txn) /\ txn s' = txn s /\ par s' = par s /\
+    slots s' = slots s ++ [None] /\ deleted s' = deleted s.
+Proof. exact (@refused_create_proof). Qed.
+
+Theorem C07_refused_update :
+  forall (cfg : config) (ops : list op) (h x : nat) (o : op),
+    let s := run cfg init ops in
+    nth h (slots s) None = Some (Txn, x) ->
+    (exists c v, o = OSet h c v) \/ o = OSyncUpdate h ->
+    fst (step cfg s o) = Raise EDuplicate ->
+    let s' := snd (step cfg s o) in
+    tobs s' = false /\ committed s' = committed s /\ pending s' = Some (view s Txn) /\ txn s' = txn s /\ par s' = par s /\
+    slots s' = slots s /\ deleted s' = deleted s.
+Proof. exact (@refused_update_proof). Qed.
+
 (* ------------------------------------------------------------------ what is FALSE of the code (open findings) *)
-Definition cfgT : config := {| doCache := true; cullFreq := 100; cullFrac := 2; wrapOk := false |}.
-Definition cfgF : config := {| doCache := false; cullFreq := 100; cullFrac := 2; wrapOk := false |}.
+Definition cfgT : config := {| doCache := true; cullFreq := 100; cullFrac := 2; wrapOk := false; lazy := false; uniq := false |}.
+Definition cfgF : config := {| doCache := false; cullFreq := 100; cullFrac := 2; wrapOk := false; lazy := false; uniq := false |}.
 Definition v (z : Z) : val := Some z.
 
 (* cache=False: the transaction-side instance that made the change is dropped before commit; the parent's
@@ -313,11 +386,56 @@ Proof. eexists; eexists; eexists. split; [vm_compute; reflexivity|reflexivity]. 
 (* a finished transaction: get of a cached instance answers, everything that needs the database raises *)
 Example C07_obsolete_nonvacuous :
   let s := snd (step cfgT (run cfgT init hist1) (OCommit true)) in
-  tobs s = true /\ op_side s (OSet 2 0 (v 1)) = Some Txn /\ needs_db s (OSet 2 0 (v 1)) = true /\
+  tobs s = true /\ op_side s (OSet 2 0 (v 1)) = Some Txn /\ needs_db cfgT s (OSet 2 0 (v 1)) = true /\
   fst (step cfgT s (OGet Txn false 1)) = Ret (RObj 1 (Some 2%nat)) /\ fst (step cfgT s (OGet Txn false 2)) = Raise EAssertion.
 Proof. vm_compute. repeat split. Qed.
 
+(* lazyUpdate: the parent holds an instance of row 1 with an assignment queued (a := 7) while the transaction deletes the
+   row; the guards hold; commit expires the instance -- attributes and queue gone -- and a new get raises not-found *)
+Definition cfgL : config := {| doCache := true; cullFreq := 100; cullFrac := 2; wrapOk := false; lazy := true; uniq := false |}.
+Definition hist_lazy : list op :=
+  [OCreate Par false (v 1) (v 1); OGet Txn false 1; OSet 0 0 (v 7); ODestroy 1].
+Example C07_lazy_parent_instance :
+  let s := run cfgL init hist_lazy in
+  let s' := snd (step cfgL s (OCommit false)) in
+  i_pending (get_inst s Par 0) = [Some (v 7); None] /\ i_vals (get_inst s Par 0) = [Some (v 7); Some (v 1)] /\
+  t_rows (committed s) = [(1, [v 1; v 1])] /\ par_fresh s = true /\ commit_reaches cfgL s = true /\
+  hist_ok cfgL init (hist_lazy ++ [OCommit false]) = true /\
+  t_rows (committed s') = [] /\ i_vals (get_inst s' Par 0) = [None; None] /\ dirty (get_inst s' Par 0) = false /\
+  par_fresh s' = true /\ fst (step cfgL s' (OGet Par false 1)) = Raise ENotFound.
+Proof. vm_compute. repeat split. Qed.
+(* ... and queue, read back, syncUpdate: both columns in one statement, only then in the table *)
+Example C07_lazy_sync_update :
+  let ops := [OCreate Par false (v 1) (v 1); OSet 0 0 (v 7); OSet 0 1 (v 8)] in
+  let s := run cfgL init ops in
+  let s' := snd (step cfgL s (OSyncUpdate 0)) in
+  t_rows (committed s) = [(1, [v 1; v 1])] /\ fst (step cfgL s (ORead 0 0)) = Ret (RVal (v 7)) /\
+  log s' = [SUpdateCols Par 1 [0; 1]%nat] /\ t_rows (committed s') = [(1, [v 7; v 8])] /\ dirty (get_inst s' Par 0) = false /\
+  hist_ok cfgL init (ops ++ [OSyncUpdate 0]) = true /\ par_fresh s' = true.
+Proof. vm_compute. repeat split. Qed.
+(* UNIQUE column: the transaction creates row 2, a second create collides with row 1 (b = 1) and is refused, a third one goes
+   through; the commit carries both the work before and the work after the refused statement *)
+Definition cfgU : config := {| doCache := true; cullFreq := 100; cullFrac := 2; wrapOk := false; lazy := false; uniq := true |}.
+Example C07_refused_in_the_middle :
+  let ops := [OCreate Par false (v 1) (v 1); OCreate Txn false (v 2) (v 2)] in
+  let s := run cfgU init ops in
+  let s1 := snd (step cfgU s (OCreate Txn false (v 3) (v 1))) in
+  let s2 := run cfgU s1 [OCreate Txn false (v 4) (v 4); OCommit false] in
+  fst (step cfgU s (OCreate Txn false (v 3) (v 1))) = Raise EDuplicate /\
+  tobs s1 = false /\ pending s1 = pending s /\ pending s <> None /\
+  t_rows (committed s2) = [(1, [v 1; v 1]); (2, [v 2; v 2]); (3, [v 4; v 4])] /\
+  fst (step cfgU (run cfgU init [OCreate Par false (v 1) (v 1)]) (OCreate Txn false (v 3) (v 1))) = Raise EDuplicate /\
+  pending (snd (step cfgU (run cfgU init [OCreate Par false (v 1) (v 1)]) (OCreate Txn false (v 3) (v 1)))) <> None /\
+  fst (step cfgU (snd (step cfgU (run cfgU init [OCreate Par false (v 1) (v 1)]) (OCreate Txn false (v 3) (v 1)))) (OCreate Par false (v 5) (v 5)))
+    = Raise EOperational.
+Proof. vm_compute. repeat split; discriminate. Qed.
+
 Print Assumptions C07_invisible_until_commit.
+Print Assumptions C07_lazy_assignment_queues.
+Print Assumptions C07_sync_update.
+Print Assumptions C07_refused_statement.
+Print Assumptions C07_refused_create.
+Print Assumptions C07_refused_update.
 Print Assumptions C07_read.
 Print Assumptions C07_count.
 Print Assumptions C07_parent_leaves_transaction_alone.
